@@ -256,6 +256,8 @@ def _gep_extend(p, gep):
             v = st["v"]
             if n == 0 and v[0] == "c" and v[1] == 0:
                 continue
+            if out and out[-1] == ("i",):
+                continue    # &a[i][j] on a flat array: one element step
             out.append(("i",))
     return tuple(out)
 
